@@ -302,3 +302,49 @@ Theorem C09_decoders_iterator_never_panics : forall HO (root : hash HO) (size bs
      (forall rd, rd_next HO st = RDone rd -> pp_stack (Fsm.r_iter HO st) = [] /\ pp_buffer (Fsm.r_iter HO st) = [])).
 Proof. exact decoders_iter_never_panics. Qed.
 Print Assumptions C09_decoders_iterator_never_panics.
+
+(* ---- collision form (Proofs/Collision.v; depends on Classical_Prop.classic and on nothing else): the idealised hypothesis
+   cv_injective is dropped; under 32-byte outputs and a correct byte comparison the conclusion holds OR the hash functions
+   have a collision between two distinct valid inputs ---- *)
+From BaoV Require Import Proofs.Collision.
+Theorem C09_e2e_alteration_or_collision : forall (HO : hops), cv_len32 HO -> beq_correct HO ->
+  (forall (data : bytes HO) (bs : N) (q : ranges),
+  (blen HO data <= 2 ^ 63)%N -> (bs <= 10)%N -> wf_ranges q = true -> q <> [] ->
+  forall (p k : nat) (b b' : B HO),
+  (length (flat HO (firstn k (honest HO data bs q))) <= p)%nat ->
+  (p < length (flat HO (firstn (S k) (honest HO data bs q))))%nat ->
+  nth_error (flat HO (honest HO data bs q)) p = Some b -> b' <> b ->
+  let stream := firstn p (flat HO (honest HO data bs q)) ++ b' :: skipn (S p) (flat HO (honest HO data bs q)) in
+  exists it, nth_error (honest HO data bs q) k = Some it /\
+  (forall ys o st,
+     dec_run HO (dec_new HO (root_hash HO data) (mkTree (blen HO data) bs) stream q) = (ys, o, st) ->
+     ys = firstn k (honest HO data bs q) /\ o = Failed (item_err HO false it)) /\
+  (forall ys o st,
+     rd_run HO (rd_new HO (root_hash HO data) q (mkTree (blen HO data) bs) stream) = (ys, o, st) ->
+     ys = firstn k (honest HO data bs q) /\ o = Failed (item_err HO false it))) \/
+  collision HO.
+Proof. intros HO Hl Hb. apply (or_collision HO _ Hl Hb). exact (C09_e2e_alteration HO). Qed.
+Print Assumptions C09_e2e_alteration_or_collision.
+
+Theorem C09_e2e_drivers_alteration_or_collision : forall (HO : hops), cv_len32 HO -> beq_correct HO ->
+  (forall (data : bytes HO) (bs : N) (q : ranges),
+  (blen HO data <= 2 ^ 63)%N -> (bs <= 10)%N -> wf_ranges q = true ->
+  forall (p k : nat) (b b' : B HO),
+  (length (flat HO (firstn k (honest HO data bs q))) <= p)%nat ->
+  (p < length (flat HO (firstn (S k) (honest HO data bs q))))%nat ->
+  nth_error (flat HO (honest HO data bs q)) p = Some b -> b' <> b ->
+  let stream := firstn p (flat HO (honest HO data bs q)) ++ b' :: skipn (S p) (flat HO (honest HO data bs q)) in
+  forall (target : bytes HO) (ob : outboard HO),
+  ob_root ob = root_hash HO data -> ob_tree ob = mkTree (blen HO data) bs ->
+  exists it, nth_error (honest HO data bs q) k = Some it /\
+    dec_err_kind (item_err HO false it) = KInvalidData /\
+    let a := apply_items HO (firstn k (honest HO data bs q)) target ob in
+    (exists st', decode_ranges HO stream q target ob =
+       (ranges_result (a_res HO a) (Failed (item_err HO false it)), a_target HO a, a_ob HO a, st')) /\
+    (exists st', decode_ranges_fsm HO stream q target ob =
+       (ranges_result (a_res HO a) (Failed (item_err HO false it)), a_target HO a, a_ob HO a, st')) /\
+    (a_res HO a = SOk -> ranges_result (a_res HO a) (Failed (item_err HO false it)) = Err (item_err HO false it))) \/
+  collision HO.
+Proof. intros HO Hl Hb. apply (or_collision HO _ Hl Hb). exact (C09_e2e_drivers_alteration HO). Qed.
+Print Assumptions C09_e2e_drivers_alteration_or_collision.
+
